@@ -70,6 +70,7 @@ type zzHyb struct {
 	deadline int64
 	next     uint64
 	notes    []zzNote
+	lossy    bool // demotions may be dropped by design (queue full / probability < 1): only the safety clauses apply
 }
 
 func zzHybNew(capv int64, mayFail bool) *zzHyb {
@@ -77,10 +78,24 @@ func zzHybNew(capv int64, mayFail bool) *zzHyb {
 	StripedBufferSize = 1
 	h := &zzHyb{sec: &zzSec{m: map[uint64]zzSecEnt{}, mayFail: mayFail}, next: 100}
 	h.origin = vfClockNow()
+	var prob float32 = 1
+	switch vfConfig("PROB", 1) {
+	case 0:
+		prob = 0
+	case 2:
+		prob = vfF32("admissionProbability") // any probability in [0,1]
+		vfAssume(prob >= 0)
+		vfAssume(prob <= 1)
+	}
 	h.s = NewStore[uint64, uint64](&StoreOptions[uint64, uint64]{
-		MaxSize: capv, SecondaryCache: h.sec, Workers: vfConfig("WORKERS", 1), Probability: 1,
+		MaxSize: capv, SecondaryCache: h.sec, Workers: vfConfig("WORKERS", 1), Probability: prob,
 		Listener: func(k, v uint64, r RemoveReason) { h.notes = append(h.notes, zzNote{k, v, r}) },
 	})
+	if vfConfig("FULL", 0) == 1 {
+		// the hand-off queue (256 slots) may be found full at any demotion: the select in removeEntry may take its default branch
+		vfMayBeFull(h.s.secondaryCacheBuf)
+	}
+	h.lossy = vfConfig("FULL", 0) == 1 || vfConfig("PROB", 1) != 1
 	vfQuiesce()
 	return h
 }
@@ -147,7 +162,7 @@ func ZZ_C14_Seq() {
 					promoted = true
 					vfReach("promoted-from-secondary")
 				}
-			} else if h.live && !expired && !c06 {
+			} else if h.live && !expired && !c06 && !h.lossy {
 				// C15: with probability 1, a working secondary and workers keeping up nothing set is lost
 				vfFail("value-found-in-some-tier")
 			}
